@@ -222,7 +222,11 @@ func roundTrip(c *facet.Ctx, in codecgen.Case) (*outcome, *facet.Failure, bool) 
 		return nil, f, true
 	}
 	if err != nil {
-		return nil, facet.Failf("decode-error", "Unmarshal of the encoder's own output %s (value %#v) under %s failed: %v", clip(b), v, in.C, err), true
+		f := facet.Failf("decode-error", "Unmarshal of the encoder's own output %s (value %#v) under %s failed: %v", clip(b), v, in.C, err)
+		if mixed {
+			f.With("mixed", "true")
+		}
+		return nil, f, true
 	}
 	if mixed {
 		c.Label("mixed-but-decoded")
